@@ -193,6 +193,27 @@ class Ctx:
         q, _ = torch.linalg.qr(gen.randn(self._next(), (self.N, 3, 3)))
         return self._wrap("rot3", q.contiguous())
 
+    def scalar(self, value: float = 2.0, shape=()) -> Tensor:
+        """A scalar parameter given as (tracked) 0-dim or 1-element float32 tensor, e.g. ``norm``, ``value``, ``min``."""
+        self._next()
+        t = torch.full(tuple(shape), float(value), dtype=torch.float32)
+        self._track(f"scalar#{len(self.tracked)}:contig", t)
+        return t
+
+    def spacing_arg(self):
+        """``spacing`` of derivative functions: None, float, sequence, or a tracked tensor of per-axis spacings."""
+        k = self.r.randrange(5)
+        if k == 0:
+            return None
+        if k == 1:
+            return self.pick([1.0, 2.0])
+        if k == 2:
+            return tuple([1.0, 2.0, 0.5][: self.D])
+        self._next()
+        t = torch.tensor([1.0, 2.0, 0.5][: self.D]) if k == 3 else torch.tensor(2.0)
+        self._track(f"spacing#{len(self.tracked)}:contig", t)
+        return t
+
     def patches(self) -> Tensor:
         return self._wrap("patches", gen.rand(self._next(), (self.N, 3, 4, 4, 3), -0.9, 0.9))
 
@@ -260,10 +281,13 @@ def make_object(kind: str, seed: int, D: int, pool_grids: List[Grid]):
         probe = cls(grid, params=False, **kw)
         shp = (1,) + tuple(probe.data_shape)
         scale = 0.02
+        init = gen.randn(seed, shp, scale)
+        if name == "HomogeneousTransform":
+            init = init + torch.eye(shp[-2], shp[-1])
         if pk == "P":
-            return cls(grid, params=Parameter(gen.randn(seed, shp, scale)), **kw)
+            return cls(grid, params=Parameter(init), **kw)
         if pk == "B":
-            return cls(grid, params=gen.randn(seed, shp, scale), **kw)
+            return cls(grid, params=init, **kw)
         t = cls(grid, params=ConstNet(seed, shp, scale), **kw)
         t.condition_(gen.randn(seed + 5, (3,)))
         return t
@@ -271,7 +295,7 @@ def make_object(kind: str, seed: int, D: int, pool_grids: List[Grid]):
 
 
 TRANSFORM_KINDS = [f"T:{n}/{k}" for n in ("Translation", "EulerRotation", "DisplacementFieldTransform", "StationaryVelocityFieldTransform",
-                                          "FreeFormDeformation", "StationaryVelocityFreeFormDeformation") for k in ("P", "B", "C")] + ["T:RigidTransform/P", "T:AffineTransform/P"]
+                                          "FreeFormDeformation", "StationaryVelocityFreeFormDeformation") for k in ("P", "B", "C")] + ["T:RigidTransform/P", "T:AffineTransform/P", "T:HomogeneousTransform/P", "T:HomogeneousTransform/B"]
 OBJECT_KINDS = ["Grid", "Cube", "Image", "ImageBatch", "FlowField", "FlowFields", "Tensor"] + TRANSFORM_KINDS
 
 
@@ -295,6 +319,44 @@ def _vec(r, D, lo=-3, hi=3):
     return tuple(round(r.uniform(lo, hi), 2) for _ in range(D))
 
 
+class TrackedRandom(random.Random):
+    """PRNG of one accessor call that also records the tensor arguments the recipe created (tensor, pristine clone)."""
+
+    def __init__(self, seed):
+        super().__init__(seed)
+        self.tracked: List[Tuple[str, Tensor, Tensor]] = []
+
+    def tensor(self, name: str, values, dtype=torch.float32) -> Tensor:
+        t = torch.tensor(values, dtype=dtype) if not isinstance(values, Tensor) else values.detach().clone().to(dtype)
+        self.tracked.append((name, t, t.clone()))
+        return t
+
+
+def _arr(r, vals, name="arg", ints=False):
+    """A vector argument in one of the forms the API accepts: tuple, list, float32/float64/int tensor (tracked)."""
+    form = r.choice(["tuple", "list", "t32", "t32", "t64"] + (["ti"] if ints else []))
+    vals = [int(v) for v in vals] if ints else [float(v) for v in vals]
+    if form == "tuple":
+        return tuple(vals)
+    if form == "list":
+        return list(vals)
+    if not hasattr(r, "tensor"):
+        return tuple(vals)
+    if form == "ti":
+        return r.tensor(name + ":int", vals, torch.int64)
+    if ints and form in ("t32", "t64"):
+        return r.tensor(name + ":int32", vals, torch.int32)
+    return r.tensor(name + (":f32" if form == "t32" else ":f64"), vals, torch.float32 if form == "t32" else torch.float64)
+
+
+def _vec_arg(r, o, getter=None, lo=-3, hi=3, name="vec"):
+    """Vector for a Grid/Cube setter: fresh values in several forms, or a tensor handed out by a getter of the
+    receiver itself (center(), origin(), ...), which aliases its internal state."""
+    if getter is not None and r.random() < 0.25:
+        return getattr(o, getter)()
+    return _arr(r, _vec(r, o.ndim, lo, hi), name)
+
+
 def _rotm(r, D):
     return gen.rotation_matrix(D, [r.uniform(-0.4, 0.4) for _ in range(1 if D == 2 else 3)]).float()
 
@@ -306,25 +368,44 @@ def _other_grid(o, r):
 
 ACC: Dict[str, Dict[str, Callable]] = {
     "Grid": {
-        "center": lambda o, r: o.center(_vec(r, o.ndim)),
-        "origin": lambda o, r: o.origin(_vec(r, o.ndim)),
-        "spacing": lambda o, r: o.spacing(tuple(r.choice([0.5, 1.0, 2.0]) for _ in range(o.ndim))),
-        "direction": lambda o, r: o.direction(_rotm(r, o.ndim)),
-        "align_corners": lambda o, r: o.align_corners(not o.align_corners()),
-        "resize": lambda o, r: o.resize(tuple(int(s) + r.choice([-1, 1, 2]) for s in o.size())),
-        "reshape": lambda o, r: o.reshape(tuple(int(s) + 1 for s in o.shape)),
-        "resample": lambda o, r: o.resample(r.choice([0.75, 1.25])),
-        "downsample": lambda o, r: o.downsample(1),
-        "upsample": lambda o, r: o.upsample(1),
-        "pyramid": lambda o, r: o.pyramid(2),
-        "crop": lambda o, r: o.crop(1),
-        "pad": lambda o, r: o.pad(1),
-        "center_crop": lambda o, r: o.center_crop(3),
-        "center_pad": lambda o, r: o.center_pad(9),
+        "center": lambda o, r: o.center(_vec_arg(r, o, r.choice(["center", "origin"]))),
+        "center:args": lambda o, r: o.center(*_vec(r, o.ndim)),
+        "origin": lambda o, r: o.origin(_vec_arg(r, o, r.choice(["origin", "center"]))),
+        "origin:args": lambda o, r: o.origin(*_vec(r, o.ndim)),
+        "spacing": lambda o, r: o.spacing(_arr(r, [r.choice([0.5, 1.0, 2.0]) for _ in range(o.ndim)], "spacing") if r.random() < 0.8 else o.spacing()),
+        "spacing:scalar": lambda o, r: o.spacing(r.choice([0.5, 1.0, 2.0])),
+        "direction": lambda o, r: o.direction(r.choice([lambda: _rotm(r, o.ndim), lambda: r.tensor("direction", _rotm(r, o.ndim)), lambda: o.direction(),
+                                                       lambda: r.tensor("direction:flat", _rotm(r, o.ndim).flatten()), lambda: tuple(_rotm(r, o.ndim).flatten().tolist())])()),
+        "align_corners": lambda o, r: o.align_corners(r.choice([not o.align_corners(), o.align_corners()])),
+        "resize": lambda o, r: o.resize(_arr(r, [int(s) + r.choice([-1, 0, 1, 2]) for s in o.size()], "size", ints=True), align_corners=r.choice([None, True, False])),
+        "resize:args": lambda o, r: o.resize(*[int(s) + r.choice([0, 1]) for s in o.size()]),
+        "reshape": lambda o, r: o.reshape(_arr(r, [int(s) + r.choice([0, 1]) for s in o.shape], "shape", ints=True), align_corners=r.choice([None, True, False])),
+        "resample": lambda o, r: o.resample(r.choice([0.75, 1.25, 1.0, "min", "max", _arr(r, [r.choice([0.5, 1.0, 1.5]) for _ in range(o.ndim)], "spacing"), o.spacing()]), min_size=r.choice([1, 3])),
+        "downsample": lambda o, r: o.downsample(r.choice([0, 1, 2]), dims=r.choice([None, (0,), ("x",)]), min_size=r.choice([1, 3]), align_corners=r.choice([None, True, False])),
+        "upsample": lambda o, r: o.upsample(r.choice([0, 1]), dims=r.choice([None, (1,)]), align_corners=r.choice([None, True, False])),
+        "pyramid": lambda o, r: o.pyramid(r.choice([1, 2]), dims=r.choice([None, (0,)]), min_size=r.choice([0, 3])),
+        "crop": lambda o, r: r.choice([lambda: o.crop(1), lambda: o.crop(0), lambda: o.crop(margin=_arr(r, [1] + [0] * (o.ndim - 1), "margin", ints=True)),
+                                       lambda: o.crop(num=_arr(r, [0, 1] * o.ndim, "num", ints=True)), lambda: o.crop(-1)])(),
+        "pad": lambda o, r: r.choice([lambda: o.pad(1), lambda: o.pad(0), lambda: o.pad(margin=_arr(r, [1] + [0] * (o.ndim - 1), "margin", ints=True)),
+                                      lambda: o.pad(num=_arr(r, [0, 1] * o.ndim, "num", ints=True)), lambda: o.pad(-1)])(),
+        "center_crop": lambda o, r: o.center_crop(r.choice([3, _arr(r, [int(s) for s in o.size()], "size", ints=True), _arr(r, [3] * o.ndim, "size", ints=True)])),
+        "center_pad": lambda o, r: o.center_pad(r.choice([9, _arr(r, [int(s) for s in o.size()], "size", ints=True), _arr(r, [9] * o.ndim, "size", ints=True)])),
+        "apply_transform": lambda o, r: o.apply_transform(r.tensor("pts", gen.rand(r.randrange(10**6), (4, o.ndim), -1, 1)), r.choice([Axes.CUBE, Axes.WORLD, Axes.GRID, Axes.CUBE_CORNERS]),
+                                                            r.choice([Axes.CUBE, Axes.WORLD, Axes.GRID, Axes.CUBE_CORNERS]), vectors=r.choice([False, True]), decimals=r.choice([-1, None, 3])),
+        "transform_points": lambda o, r: o.transform_points(r.tensor("pts", gen.rand(r.randrange(10**6), (4, o.ndim), -1, 1)), r.choice([Axes.CUBE, Axes.WORLD, Axes.GRID]),
+                                                              r.choice([Axes.CUBE, Axes.WORLD, Axes.GRID, None]), to_grid=r.choice([None, o]), decimals=r.choice([-1, None, 3])),
+        "transform_vectors": lambda o, r: o.transform_vectors(r.tensor("vecs", gen.rand(r.randrange(10**6), (4, o.ndim), -1, 1)), r.choice([Axes.CUBE, Axes.WORLD, Axes.GRID]),
+                                                                r.choice([Axes.CUBE, Axes.WORLD, Axes.GRID, None])),
+        "index_world_cube": lambda o, r: getattr(o, r.choice(["cube_to_index", "cube_to_world", "index_to_cube", "index_to_world", "world_to_cube", "world_to_index"]))(
+            r.tensor("pts", gen.rand(r.randrange(10**6), (4, o.ndim), -1, 1)), decimals=r.choice([-1, 3])),
+        "coords:forms": lambda o, r: o.coords(dim=r.choice([None, 0]), center=r.choice([False, True]), normalize=r.choice([True, False]), align_corners=r.choice([None, True, False]),
+                                               channels_last=r.choice([True, False]), flip=r.choice([False, True]), dtype=r.choice([None, torch.float64])),
+        "get:misc": lambda o, r: (o.extent(), o.cube_extent(), o.inverse_affine(), o.inverse_transform(vectors=r.choice([False, True])), o.domain(), o.axes(), o.numel(), o.dim()),
+        "same_domain_as": lambda o, r: o.same_domain_as(r.choice([o, o.resize(tuple(int(s) + 1 for s in o.size())), o.center(_vec(r, o.ndim))])),
         "narrow": lambda o, r: o.narrow(0, 1, 2),
         "region_of_interest": lambda o, r: o.region_of_interest((1,) * o.ndim, (2,) * o.ndim),
         "avg_pool": lambda o, r: o.avg_pool(2),
-        "pool": lambda o, r: o.pool(2, stride=2),
+        "pool": lambda o, r: o.pool(r.choice([1, 2, 3]), padding=r.choice([0, 0, 1]), dilation=r.choice([1, 1, 2]), ceil_mode=r.choice([False, True])),
         "clone": lambda o, r: o.clone(),
         "cube": lambda o, r: o.cube(),
         "coords": lambda o, r: o.coords(),
@@ -339,10 +420,18 @@ ACC: Dict[str, Dict[str, Callable]] = {
         "numpy": lambda o, r: torch.from_numpy(o.numpy()),
     },
     "Cube": {
-        "center": lambda o, r: o.center(_vec(r, o.ndim)),
-        "origin": lambda o, r: o.origin(_vec(r, o.ndim)),
-        "extent": lambda o, r: o.extent(tuple(r.choice([4.0, 6.5]) for _ in range(o.ndim))),
-        "direction": lambda o, r: o.direction(_rotm(r, o.ndim)),
+        "center": lambda o, r: o.center(_vec_arg(r, o, r.choice(["center", "origin"]))),
+        "center:args": lambda o, r: o.center(*_vec(r, o.ndim)),
+        "origin": lambda o, r: o.origin(_vec_arg(r, o, r.choice(["origin", "center"]))),
+        "extent": lambda o, r: o.extent(_arr(r, [r.choice([4.0, 6.5]) for _ in range(o.ndim)], "extent") if r.random() < 0.8 else o.extent()),
+        "extent:scalar": lambda o, r: o.extent(r.choice([4.0, 6.5])),
+        "direction": lambda o, r: o.direction(r.choice([lambda: _rotm(r, o.ndim), lambda: r.tensor("direction", _rotm(r, o.ndim)), lambda: o.direction()])()),
+        "transform_points": lambda o, r: o.transform_points(r.tensor("pts", gen.rand(r.randrange(10**6), (4, o.ndim), -1, 1)), r.choice([Axes.CUBE, Axes.WORLD]), r.choice([Axes.CUBE, Axes.WORLD, None])),
+        "transform_vectors": lambda o, r: o.transform_vectors(r.tensor("vecs", gen.rand(r.randrange(10**6), (4, o.ndim), -1, 1)), r.choice([Axes.CUBE, Axes.WORLD]), r.choice([Axes.CUBE, Axes.WORLD, None])),
+        "cube_world": lambda o, r: getattr(o, r.choice(["cube_to_world", "world_to_cube"]))(r.tensor("pts", gen.rand(r.randrange(10**6), (4, o.ndim), -1, 1))),
+        "grid:forms": lambda o, r: o.grid(**r.choice([dict(size=5), dict(shape=(5,) * o.ndim), dict(spacing=1.0), dict(size=_arr(r, [5] * o.ndim, "size", ints=True), align_corners=False),
+                                                      dict(spacing=_arr(r, [1.0] * o.ndim, "spacing"))])),
+        "get:misc": lambda o, r: (o.spacing(), o.inverse_affine(), o.inverse_transform(vectors=r.choice([False, True])), o.numpy(), o.dim()),
         "clone": lambda o, r: o.clone(),
         "grid": lambda o, r: o.grid(size=5),
         "get:center": lambda o, r: o.center(),
@@ -351,6 +440,39 @@ ACC: Dict[str, Dict[str, Callable]] = {
         "affine": lambda o, r: o.affine(),
         "transform": lambda o, r: o.transform(),
     },
+}
+
+def _sp(o):
+    return _img_grid(o).ndim
+
+
+IMG_ACC_FORMS = {
+    "resize:forms": lambda o, r: o.resize(_arr(r, [int(s) + r.choice([0, 0, 1]) for s in _img_grid(o).size()], "size", ints=True), mode=r.choice(["linear", "nearest"]), align_corners=r.choice([None, True, False])),
+    "resample:forms": lambda o, r: o.resample(r.choice([1.0, "min", "max", 0.75, _arr(r, [r.choice([0.5, 1.0, 1.5]) for _ in range(_sp(o))], "spacing"), o.spacing()[0] if o.spacing().ndim > 1 else o.spacing()]),
+                                              mode=r.choice(["linear", "nearest"])),
+    "downsample:forms": lambda o, r: o.downsample(r.choice([0, 1]), dims=r.choice([None, (0,)]), sigma=r.choice([None, 0, 0.7]), mode=r.choice([None, "nearest"]), min_size=r.choice([0, 3]), align_corners=r.choice([None, True, False])),
+    "upsample:forms": lambda o, r: o.upsample(r.choice([0, 1]), dims=r.choice([None, (1,)]), sigma=r.choice([None, 0.7]), mode=r.choice([None, "nearest"]), align_corners=r.choice([None, True, False])),
+    "pyramid:forms": lambda o, r: o.pyramid(r.choice([1, 2, 3]), start=r.choice([0, 0, 1]), end=r.choice([-1, -1, 0]), dims=r.choice([None, (0,)]), sigma=r.choice([None, 0.7]), mode=r.choice([None, "nearest"]),
+                                            spacing=r.choice([None, None, 1.0]), min_size=r.choice([0, 3]), align_corners=r.choice([None, True, False])),
+    "crop:forms": lambda o, r: o.crop(**r.choice([dict(margin=0), dict(margin=1), dict(margin=-1), dict(num=_arr(r, [0, 1] * _sp(o), "num", ints=True)), dict(margin=_arr(r, [1] + [0] * (_sp(o) - 1), "margin", ints=True)),
+                                                  dict(margin=-1, mode="replicate"), dict(margin=-1, value=r.choice([2.0, r.tensor("value", 2.0)]))])),
+    "pad:forms": lambda o, r: o.pad(**r.choice([dict(margin=0), dict(margin=1), dict(margin=-1), dict(num=_arr(r, [0, 1] * _sp(o), "num", ints=True)), dict(margin=1, mode="reflect"),
+                                                dict(margin=1, value=r.choice([2.0, r.tensor("value", 2.0)]))])),
+    "center_crop:forms": lambda o, r: o.center_crop(r.choice([3, _arr(r, [int(s) for s in _img_grid(o).size()], "size", ints=True)])),
+    "center_pad:forms": lambda o, r: o.center_pad(r.choice([9, _arr(r, [int(s) for s in _img_grid(o).size()], "size", ints=True)]), mode=r.choice(["constant", "replicate"]), value=r.choice([0, 1.5])),
+    "region_of_interest:forms": lambda o, r: o.region_of_interest(*r.choice([(r.choice([0, 1, -1]), r.choice([2, 3])), (tuple(r.choice([0, 1, -1]) for _ in range(_sp(o))), tuple(r.choice([2, 3]) for _ in range(_sp(o)))),
+                                                                                ([1] * _sp(o), [2] * _sp(o))])),
+    "avg_pool:forms": lambda o, r: o.avg_pool(r.choice([1, 2, 3]), stride=r.choice([None, 1]), padding=r.choice([0, 0, 1]), ceil_mode=r.choice([False, True]), count_include_pad=r.choice([True, False])),
+    "conv:forms": lambda o, r: o.conv(r.choice([r.tensor("kernel", [0.25, 0.5, 0.25]), r.tensor("kernel1", [1.0]), [r.tensor("kernel", [0.25, 0.5, 0.25])] + [None] * (_sp(o) - 1)]), padding=r.choice([None, "zeros", "replicate", 0, 1])),
+    "normalize:forms": lambda o, r: o.normalize(r.choice(["unit", "center", "z"]), **r.choice([dict(), dict(min=0, max=1), dict(min=-0.5, max=0.5), dict(min=0.25), dict(min=-1, max=1)])),
+    "rescale:forms": lambda o, r: o.rescale(**r.choice([dict(), dict(min=0, max=1), dict(min=0, max=1, data_min=0, data_max=1), dict(min=-3, max=3, data_min=-3, data_max=3), dict(min=0, max=255, dtype=torch.uint8),
+                                                        dict(min=r.tensor("min", 0.0), max=r.tensor("max", 1.0))])),
+    "sample:forms": lambda o, r: o.sample(r.choice([_img_grid(o), _img_grid(o).align_corners(not _img_grid(o).align_corners()), _img_grid(o).resize(tuple(int(s) + 1 for s in _img_grid(o).size())),
+                                                    _img_grid(o).center(_vec(r, _sp(o), -1, 1))]), mode=r.choice([None, "linear", "nearest"]), padding=r.choice([None, "border", "zeros", 1.5])),
+    "sample:coords": lambda o, r: o.sample(r.tensor("coords", gen.rand(r.randrange(10**6), ((o.shape[0],) if isinstance(o, ImageBatch) else ()) + (6, _sp(o)), -0.9, 0.9)), mode=r.choice([None, "nearest"]), padding=r.choice([None, "border", 0.5])),
+    "grid:same": lambda o, r: o.grid(r.choice([_img_grid(o), _img_grid(o).clone()])),
+    "narrow:forms": lambda o, r: o.narrow(r.choice([0, 1, 2, o.ndim - 1, -1]), r.choice([0, 1]), r.choice([1, 2])),
+    "get:misc": lambda o, r: (o.align_corners(), o.domain(), o.nchannels, o.sdim),
 }
 
 IMG_ACC = {
@@ -364,7 +486,7 @@ IMG_ACC = {
     "pad": lambda o, r: o.pad(1, mode=r.choice(["constant", "border", "reflect"]), value=r.choice([0, 1.5])),
     "center_crop": lambda o, r: o.center_crop(3),
     "center_pad": lambda o, r: o.center_pad(9),
-    "narrow": lambda o, r: o.narrow(-1, 1, 2),
+    "narrow": lambda o, r: o.narrow(1, 1, 2),
     "region_of_interest": lambda o, r: o.region_of_interest((1,) * _img_grid(o).ndim, (2,) * _img_grid(o).ndim),
     "avg_pool": lambda o, r: o.avg_pool(2),
     "conv": lambda o, r: o.conv(torch.tensor([0.25, 0.5, 0.25])),
@@ -385,18 +507,24 @@ def _img_grid(o) -> Grid:
     return o.grids()[0] if isinstance(o, ImageBatch) else o.grid()
 
 
-ACC["Image"] = dict(IMG_ACC, batch=lambda o, r: o.batch())
-ACC["ImageBatch"] = dict(IMG_ACC, getitem=lambda o, r: o[r.choice([0, 1, slice(0, 1), -1])], grids=lambda o, r: o.grids()[0])
+IMG_ACC.update(IMG_ACC_FORMS)
+ACC["Image"] = dict(IMG_ACC, batch=lambda o, r: o.batch(), sitk=lambda o, r: o.sitk(), same_domain_as=lambda o, r: o.same_domain_as(o))
+ACC["ImageBatch"] = dict(IMG_ACC, getitem=lambda o, r: o[r.choice([0, 1, slice(0, 1), -1])], grids=lambda o, r: o.grids()[0],
+                         append=lambda o, r: o.append(o), cubes=lambda o, r: (o.cubes(), o.domains(), o.cube(r.choice([0, 1])), o.grid(r.choice([0, 1]))),
+                         **{"grid:seq": lambda o, r: o.grid([g.center(_vec(r, g.ndim)) for g in o.grids()]), "sample:seq": lambda o, r: o.sample([g for g in o.grids()]),
+                            "from_images": lambda o, r: type(o).from_images([o[i] for i in range(o.shape[0])]) if hasattr(type(o), "from_images") else None})
 FLOW_ACC = {
     "axes": lambda o, r: o.axes(r.choice([Axes.WORLD, Axes.GRID, Axes.CUBE, Axes.CUBE_CORNERS])),
     "axes:same": lambda o, r: o.axes(o.axes()),
     "exp": lambda o, r: o.exp(steps=3),
+    "exp:forms": lambda o, r: o.exp(scale=r.choice([None, 1, 1.0, 0.5, -1]), steps=r.choice([0, 1, 3]), padding=r.choice(["border", "zeros"])),
     "curl": lambda o, r: o.curl(),
+    "curl:forms": lambda o, r: o.curl(mode=r.choice([None, "central", "forward", "bspline"]), sigma=r.choice([None, 0.7]), spacing=r.choice([None, 1.0]), stride=r.choice([None, 1])),
     "warp_image": lambda o, r: o.warp_image(Image(gen.randn(3, (1,) + tuple(_img_grid(o).shape)), _img_grid(o)) if isinstance(o, FlowField) else ImageBatch(gen.randn(3, (o.shape[0], 1) + tuple(_img_grid(o).shape)), _img_grid(o))),
 }
 ACC["FlowField"] = dict(ACC["Image"], **FLOW_ACC)
 ACC["FlowFields"] = dict(ACC["ImageBatch"], **FLOW_ACC)
-for _k in ("conv", "normalize", "rescale"):
+for _k in ("conv", "normalize", "rescale", "conv:forms", "normalize:forms", "rescale:forms"):
     ACC["FlowField"].pop(_k, None)
     ACC["FlowFields"].pop(_k, None)
 
@@ -422,7 +550,7 @@ ACC["Transform"] = {
     "inv": lambda o, r: o.inv,
     "unlink": lambda o, r: o.unlink(),
     "link": lambda o, r: o.link(_copy.copy(o)),
-    "matrix": lambda o, r: o.matrix(torch.eye(o.ndim, o.ndim + 1).unsqueeze(0)),
+    "matrix": lambda o, r: o.matrix(r.tensor("matrix", (torch.eye(o.ndim, o.ndim + 1) + gen.randn(r.randrange(10**6), (o.ndim, o.ndim + 1), 0.05)).unsqueeze(0))),
     "get:grid": lambda o, r: o.grid(),
     "get:condition": lambda o, r: o.condition(),
     "get:data": lambda o, r: o.data(),
@@ -757,8 +885,13 @@ class FrameWorld:
         fn = table.get(op["name"])
         if fn is None:
             return StepResult("skipped")
-        r = random.Random(op["seed"])
+        r = TrackedRandom(op["seed"])
         status, result, viol = self.run_op(lambda: fn(obj, r), oid, "none", "acc:" + op["name"], op.get("interrupt"))
+        for nm, t, clone in r.tracked:
+            self.c["checks"]["frame:accessor_argument"] += 1
+            if t.shape != clone.shape or t.dtype != clone.dtype or not torch.equal(torch.nan_to_num(t.detach()), torch.nan_to_num(clone)):
+                viol.append(Violation("C15", "argument-mutated", f"argument-mutated/acc:{op['name']}/{tag}/{nm}", {"arg": nm, "at": status}))
+                break
         self.api_note(f"{tag}.{op['name']}", "called" if status == "ok" else status)
         if status == "ok":
             self.nontrivial = True
